@@ -56,6 +56,139 @@ def sline(msgs):
     return "s " + " ".join(m.hex() for m in msgs)
 
 
+# ---------------------------------------------------------------- a small D-Bus marshaller for arbitrary values (inputs of C12/C13)
+# type trees: ("y",) ("b",) ... basic; ("a", child); ("r", [fields]); ("e", key, value) = a{kv}; ("v",)
+BASIC_ALIGN = {"y": 1, "b": 4, "n": 2, "q": 2, "i": 4, "u": 4, "x": 8, "t": 8, "d": 8, "s": 4, "o": 4, "g": 1, "h": 4, "v": 1}
+
+
+def sig_str(t):
+    k = t[0]
+    if k == "a":
+        return "a" + sig_str(t[1])
+    if k == "r":
+        return "(" + "".join(sig_str(f) for f in t[1]) + ")"
+    if k == "e":
+        return "a{" + sig_str(t[1]) + sig_str(t[2]) + "}"
+    return k
+
+
+def align_of(t):
+    k = t[0]
+    if k in ("a", "e"):
+        return 4
+    if k == "r":
+        return 8
+    return BASIC_ALIGN[k]
+
+
+def rand_type(rng, depth=0, basic_only=False):
+    basics = "ybnqiuxtdsog"
+    r = rng.random()
+    if basic_only or depth >= 3 or r < 0.55:
+        return (rng.choice(basics),)
+    if r < 0.70:
+        return ("a", rand_type(rng, depth + 1))
+    if r < 0.82:
+        return ("r", [rand_type(rng, depth + 1) for _ in range(rng.randint(1, 3))])
+    if r < 0.90:
+        return ("e", rand_type(rng, depth + 1, rng.random() < 0.8), rand_type(rng, depth + 1))
+    if r < 0.97:
+        return ("v",)
+    return ("h",)
+
+
+def rand_value(rng, t, depth=0):
+    k = t[0]
+    if k == "y":
+        return rng.randrange(256)
+    if k == "b":
+        return rng.choice([0, 1, 1, 1, 2]) if rng.random() < 0.1 else rng.choice([0, 1])
+    if k in "nq":
+        return rng.randrange(1 << 16)
+    if k in "iuh":
+        return rng.randrange(1 << 32) if k != "h" else 0
+    if k in "xtd":
+        return rng.randrange(1 << 64)
+    if k == "s":
+        return rand_text(rng, 0, 6).encode("utf8")
+    if k == "o":
+        return path_name(rng).encode() if rng.random() < 0.93 else rng.choice([b"", b"a", b"/a/", b"//"])
+    if k == "g":
+        return rng.choice(["", "s", "a{sv}", "(ii)", "su", "aay"]).encode() if rng.random() < 0.93 else rng.choice([b"a", b"(", b"z"])
+    if k == "a":
+        return [rand_value(rng, t[1], depth + 1) for _ in range(rng.choice([0, 1, 1, 2, 3]))]
+    if k == "r":
+        return [rand_value(rng, f, depth + 1) for f in t[1]]
+    if k == "e":
+        return [(rand_value(rng, t[1], depth + 1), rand_value(rng, t[2], depth + 1)) for _ in range(rng.choice([0, 1, 2]))]
+    if k == "v":
+        it = rand_type(rng, 2 if depth < 2 else 3)
+        return (it, rand_value(rng, it, depth + 1))
+    raise ValueError(k)
+
+
+def marshal(e, t, v, pos):
+    """bytes of value v of type t written at absolute offset pos (padding included)"""
+    k = t[0]
+    out = b"\0" * ((-pos) % align_of(t))
+    p = pos + len(out)
+    fmt = "<" if e == "l" else ">"
+    if k == "y":
+        return out + bytes([v])
+    if k in "nq":
+        return out + struct.pack(fmt + "H", v)
+    if k in "biuh":
+        return out + struct.pack(fmt + "I", v)
+    if k in "xtd":
+        return out + struct.pack(fmt + "Q", v)
+    if k in "so":
+        return out + struct.pack(fmt + "I", len(v)) + v + b"\0"
+    if k == "g":
+        return out + bytes([len(v)]) + v + b"\0"
+    if k == "v":
+        it, iv = v
+        sg = sig_str(it).encode()
+        hd = bytes([len(sg)]) + sg + b"\0"
+        return out + hd + marshal(e, it, iv, p + len(hd))
+    if k == "r":
+        body = b""
+        for f, fv in zip(t[1], v):
+            body += marshal(e, f, fv, p + len(body))
+        return out + body
+    if k in ("a", "e"):
+        ea = 8 if k == "e" else align_of(t[1])
+        start = p + 4
+        first = b"\0" * ((-start) % ea)
+        start += len(first)
+        body = b""
+        for item in v:
+            if k == "e":
+                body += b"\0" * ((-(start + len(body))) % 8)
+                body += marshal(e, t[1], item[0], start + len(body))
+                body += marshal(e, t[2], item[1], start + len(body))
+            else:
+                body += marshal(e, t[1], item, start + len(body))
+        return out + struct.pack(fmt + "I", len(body)) + first + body
+    raise ValueError(k)
+
+
+def any_field(e, off, code, t, v):
+    """a (yv) element at 8-aligned offset off with a value of any type"""
+    sg = sig_str(t).encode()
+    hd = bytes([code, len(sg)]) + sg + b"\0"
+    return hd + marshal(e, t, v, off + len(hd))
+
+
+def msg_any(e, ty, flags, serial, fields, body=b"", ver=1):
+    """like msg(), fields are (code, type tree, value)"""
+    arr = b""
+    for (code, t, v) in fields:
+        arr = pad(arr, 8)
+        arr += any_field(e, 16 + len(arr), code, t, v)
+    h = bytes([ord(e), ty, flags, ver]) + u32(e, len(body)) + u32(e, serial) + u32(e, len(arr)) + arr
+    return pad(h, 8) + body
+
+
 # ---------------------------------------------------------------- random valid names
 
 def ident(rng, first="abcXYZ_", rest="abcXYZ019_", lo=1, hi=6):
